@@ -553,9 +553,22 @@ class DictMethod(Model):
             k = hashable(args[0], node)
             return d.get(k, args[1] if len(args) > 1 else None)
         if name == 'update':
-            o = args[0]
+            o = args[0] if args else PDict({})
             if isinstance(o, PDict):
                 d.update(o.d)
+                for k, v in kwargs.items():
+                    d[k] = v
+                return None
+            # an iterable of concrete length whose items are (key, value) pairs
+            try:
+                items = list(concrete_items(I, o, node))
+            except Exception:       # noqa
+                items = None
+            if items is not None and all(isinstance(x, tuple) and len(x) == 2 for x in items):
+                for k, v in items:
+                    d[hashable(k, node)] = v
+                for k, v in kwargs.items():
+                    d[k] = v
                 return None
         if name == 'pop':
             k = hashable(args[0], node)
